@@ -60,6 +60,7 @@ class Registry:
         self.spec_funcs = {}
         self.current = None      # contract under verification
         self.pure_funcs = set()
+        self.loop_contracts = {}
 
     # ---------------------------------------------------------------- policies
     def has_contract(self, fi, eng):
@@ -146,7 +147,16 @@ class Registry:
         self._unsup('dict.update', line)
 
     def dictcomp(self, eng, n, fr, q):
-        self._unsup('dict comprehension over symbolic collection', n.lineno)
+        # over-approximation: a fresh dict of the right types whose contents are left unconstrained (the element
+        # expressions were evaluated for a generic element, so their safety obligations are generated)
+        _, vars_, guard, elt, coll = q
+        k, v = elt
+        d = eng.new_dict(eng.value_type(k), eng.value_type(v))
+        hn, ha = eng.dict_has(d)
+        eng.heap.set(hn, z3.Store(ha, d.ref, eng.run.fresh('dc_has', ha[d.ref].sort())))
+        vn, va = eng.dict_val(d)
+        eng.heap.set(vn, z3.Store(va, d.ref, eng.run.fresh('dc_val', va[d.ref].sort())))
+        return d
 
     def set_pop(self, eng, s, line):
         eng.partial(eng.nonempty(s), 'KeyError', line)
